@@ -74,6 +74,13 @@ def configs(tier):
                     if how == "set-replace" and nmem == 0:
                         continue
                     out.append(dict(kind="insert", n0=list(n0) if n0 == () else n0, nmem=nmem, n=list(n) if n == () else n, how=how))
+    # update() with two items at once (each insertion is judged against the state at that moment), also on an empty group
+    for n0 in (1, 2):
+        for nmem in (0, 1):
+            for n in (1, 2, 3):
+                for n2 in (1, 2, 3):
+                    for kinds in ("AA", "AV", "VA"):
+                        out.append(dict(kind="update2", n0=n0, nmem=nmem, n=n, n2=n2, kinds=kinds))
     return out
 
 
@@ -189,6 +196,30 @@ def body(m, cfg):
             got = _rows(m, dg[k])
             m.require(len(got) == len(perm) and all(_same_row(m, g, src[k][p]) for g, p in zip(got, perm)),
                       f"member {k} follows the index list", key=f"aligned:{tag}:{k}")
+        return
+    if kind == "update2":
+        n0, nmem, n, n2, kinds = cfg["n0"], cfg["nmem"], cfg["n"], cfg["n2"], cfg["kinds"]
+        tag = f"update2:mem{nmem}:{kinds}:{'aligned' if (n == n2 and (nmem == 0 or n == n0)) else 'misaligned'}"
+        dg = Datagroup()
+        if nmem:
+            dg["p"] = Array(m.array("p", (n0,), "float64"), unit="m")
+
+        def mk(k, name, length):
+            if k == "A":
+                return Array(m.array(name, (length,), "float64"), unit="s")
+            return Vector(*[m.array(name + c, (length,), "float64") for c in "xy"], unit="cm")
+        v1, v2 = mk(kinds[0], "w", n), mk(kinds[1], "u", n2)
+        try:
+            dg.update({"w": v1, "u": v2})
+            raised = False
+        except ValueError:
+            raised = True
+        ok1 = (nmem == 0) or n == n0
+        ok2 = ok1 and n2 == n
+        m.require(raised == (not (ok1 and ok2)), "update() accepts the items iff each keeps the members aligned", key=f"update2-verdict:{tag}")
+        shapes = {tuple(dg[k].shape) for k in dg.keys()}
+        m.require(len(shapes) <= 1, "after update() all members share one shape", key=f"invariant:{tag}",
+                  info={k: list(dg[k].shape) for k in dg.keys()})
         return
     if kind == "insert":
         n0 = tuple(cfg["n0"]) if isinstance(cfg["n0"], list) else (cfg["n0"],)
